@@ -29,8 +29,8 @@ type matchHdr struct {
 }
 
 type matchCell struct {
-	Q int          `json:"q"`
-	B [][][2]any   `json:"b"`
+	Q int        `json:"q"`
+	B [][][2]any `json:"b"`
 }
 
 type matchTableEntry struct {
@@ -39,7 +39,7 @@ type matchTableEntry struct {
 }
 
 type matchTable struct {
-	T    []matchTableEntry  `json:"t"`
+	T    []matchTableEntry   `json:"t"`
 	Hits map[string][][2]int `json:"hits"`
 }
 
